@@ -11,14 +11,19 @@ PROPS = {
     }
 }
 
-SEGS = [[0, 1], [2], [3]]
+SEGS = [[0, 1], [2], [3], [0], [5]]
+PARTS = [0, 0, 0, 1, 1]  # partition of each segment (SegList of Processor.tla)
 PROCS = {
     "skeleton": dict(gomod="addons/processors/skeleton", src="skeleton_verif_test.go", toolchain="go1.25.2", lfs=False),
-    "sql": dict(gomod="addons/processors/sql-processor", src="sql_verif_test.go", toolchain=None, lfs=False),
+    "sql": dict(gomod="addons/processors/sql-processor", src="sql_verif_test.go", toolchain=None, lfs=False,
+                extra={"internal/decoder/zz_verif_export.go": "sql_decoder_export.go"}),
     "iceberg": dict(gomod="addons/processors/iceberg-processor", src="iceberg_verif_test.go", toolchain=None, lfs=True),
 }
 # deviation cfg suffix -> (invariant TLC must report, model has LFS)
 DEVIATIONS = {
+    "StaleCache": ("C33_CheckpointSafe", False),
+    "StaleCacheClean": ("C33_CleanCycleDelivers", False),
+    "TruncAccepted": ("C33_CheckpointSafe", False),
     "BreakOnError": ("C33_CheckpointSafe", False),
     "Sentinel": ("C33_CleanCycleDelivers", False),
     "LfsFail": ("C33_CheckpointSafe", True),
@@ -32,24 +37,31 @@ TRACE_CFG = """CONSTANTS
  FixBreakOnError = TRUE
  FixSentinel = TRUE
  FixLfsFail = TRUE
+ DevStaleCache = FALSE
+ DevTruncAccepted = FALSE
 INIT TInit
 NEXT TNext
 POSTCONDITION Reached
 CHECK_DEADLOCK FALSE
 """
-OPS = {"List": "list", "Load": "load", "Decode": "decode", "Lfs": "lfs", "Write": "write", "Commit": "commit"}
+OPS = {"List": "list", "Claim": "claim", "Lose": "lose", "Load": "load", "Decode": "decode", "Lfs": "lfs", "Write": "write", "Commit": "commit"}
 
 
 def to_sched(store, steps, label, cycles=None):
     faults = []
     for s in steps:
         if not s["ok"]:
-            k = "%d:%d:%s" % (s["c"], s["seg"], OPS[s["a"]])
+            op = OPS[s["a"]]
+            if s["a"] == "Decode" and s.get("kind") == "trunc":
+                op = "trunc"
+            k = "%d:%d:%s" % (s["c"], s["seg"], op)
             if s["a"] == "Lfs":
                 k += ":%d" % s["off"]
+            if s["a"] == "Claim":
+                k += ":%d" % s["p"]
             faults.append(k)
     c = max([s["c"] for s in steps] + [1])
-    return {"store": store, "cycles": cycles or max(c, 3), "faults": sorted(faults), "segs": SEGS, "label": label}
+    return {"store": store, "cycles": cycles or c + 1, "faults": sorted(faults), "segs": SEGS, "parts": PARTS, "label": label}
 
 
 def enumerate_all(ctx, d, cfg):
@@ -61,7 +73,7 @@ def enumerate_all(ctx, d, cfg):
         raise Broken("enumeration %s printed no behaviours" % cfg)
     out, seen = [], set()
     for h in hs:
-        s = to_sched(h["store"], h["steps"], "enum")
+        s = to_sched(h["store"], h["steps"], "enum", cycles=5)
         k = json.dumps(s, sort_keys=True)
         if k not in seen:
             seen.add(k)
@@ -75,8 +87,10 @@ def harness(ctx, proc, scheds, tag):
     sp = os.path.join(ctx.scratch, "sched-%s-%s.ndjson" % (proc, tag))
     tp = os.path.join(ctx.scratch, "trace-%s-%s.ndjson" % (proc, tag))
     gorun.write_ndjson(sp, [{k: v for k, v in s.items() if k != "label"} for s in scheds])
-    rc, out = gorun.go_test(ctx, p["gomod"], "./internal/processor/",
-                            {p["gomod"] + "/internal/processor/zz_verif_processor_test.go": os.path.join(DIR, "harness", p["src"])},
+    ov = {p["gomod"] + "/internal/processor/zz_verif_processor_test.go": os.path.join(DIR, "harness", p["src"])}
+    for rel, src in p.get("extra", {}).items():  # export shim compiled into another package of the module (build tag verif)
+        ov[p["gomod"] + "/" + rel] = os.path.join(DIR, "harness", src)
+    rc, out = gorun.go_test(ctx, p["gomod"], "./internal/processor/", ov,
                             "^TestVerifProcessorReplay$", env={"VERIF_SCHEDULES": sp, "VERIF_TRACE_OUT": tp},
                             toolchain=p["toolchain"], timeout=1500)
     if rc != 0 or "replayed %d schedules" % len(scheds) not in out:
@@ -96,20 +110,34 @@ def split(rows):
 
 def describe(run, upto, inv):
     """Signature detail for a violating line: the mechanism class (descriptive only; the verdict was TLC's)."""
-    sink, failed = set(), []
+    nparts = len(run[0]["all"])
+    sink = [set() for _ in range(nparts)]
+    ckpt = [-1] * nparts
     for r in run[:upto + 1]:
         if r["ev"] == "Write" and r["ok"]:
-            sink |= set(r["offs"])
-        if r["ev"] in OPS and not r["ok"]:
-            failed.append(OPS[r["ev"]])
-    missing = set(run[0]["all"]) - sink
-    if run[0]["store"] == "noop" and missing == {0}:
+            sink[r["p"]] |= set(r["offs"])
+        if r["ev"] == "Commit" and r["ok"]:
+            ckpt[r["p"]] = r["off"]
+    # the partition and first record concerned
+    part, first = -1, None
+    for p in range(nparts):
+        miss = sorted(o for o in run[0]["all"][p] if o not in sink[p] and (inv != "C33_CheckpointSafe" or o <= ckpt[p]))
+        if miss and (inv == "C33_CheckpointSafe" or any(r["ev"] == "CycleEnd" and r.get("lease") == p for r in run[:upto + 1])):
+            part, first = p, miss[0]
+            break
+    if part == -1:
+        return "unclassified"
+    lost = any(r["ev"] == "Lose" for r in run[:upto + 1])
+    if run[0]["store"] == "noop" and first == 0 and not lost and all(o in sink[part] for o in run[0]["all"][part] if o != 0):
         return "placeholder-store-skips-offset-0"
-    # the failure that hit the segment holding the first record that was skipped
-    segs = run[0].get("segs") or SEGS
-    seg = next((i + 1 for i, offs in enumerate(segs) if missing and min(missing) in offs), 0)
-    hit = [OPS[r["ev"]] for r in run[:upto + 1] if r["ev"] in OPS and not r["ok"] and r.get("seg") == seg and r["ev"] not in ("List", "Commit")]
-    return "record-skipped-after-failed-%s" % (hit[-1] if hit else "none")
+    seg = next((i + 1 for i, offs in enumerate(SEGS) if PARTS[i] == part and first in offs), 0)
+    hit = [("trunc" if r.get("kind") == "trunc" else OPS[r["ev"]]) for r in run[:upto + 1]
+           if r["ev"] in ("Load", "Decode", "Lfs", "Write") and not r["ok"] and r.get("seg") == seg]
+    if hit:
+        return "record-skipped-after-failed-%s" % hit[-1]
+    if lost and part != 0:
+        return "record-skipped-after-lease-moved-to-another-partition"
+    return "record-skipped-after-failed-none"
 
 
 def build_schedules(ctx, d):
@@ -123,16 +151,15 @@ def build_schedules(ctx, d):
         if inv not in r.violated or not os.path.exists(path):
             raise Broken("deviation %s no longer violates %s in the model (vacuous deviation)" % (dev, inv))
         st = json.load(open(path))["counterexample"]["state"][-1][1]
-        devs[dev] = to_sched(st["store"], st["hist"], "dev:" + dev, cycles=3)
+        devs[dev] = to_sched(st["store"], st["hist"], "dev:" + dev, cycles=5)
     for lfs in (False, True):
         name = "Processor" if lfs else "ProcessorNoLfs"
         scheds = [s for dv, s in sorted(devs.items()) if DEVIATIONS[dv][1] == lfs or not DEVIATIONS[dv][1]]
         f2, _ = enumerate_all(ctx, d, "All_%s_f2.cfg" % name)  # every complete behaviour with <= 2 failures
         f1 = [s for s in f2 if len(s["faults"]) <= 1]
         f2only = [s for s in f2 if len(s["faults"]) == 2]
-        if quick:
-            rnd.shuffle(f2only)
-            f2only = f2only[:200]
+        rnd.shuffle(f2only)
+        f2only = f2only[:200] if quick else f2only[:1500]
         enum = f1 + f2only
         sims = []
         if not quick:
@@ -224,9 +251,10 @@ def check(ctx, prop):
     if not quick:
         cov["action_coverage"] = {n: {k: v[1] for k, v in m.action_coverage().items()} for n, m in mcs.items()}
     return verdict(ctx, violations, level, cov, [
-        "one partition, three completed segments listed in offset order, lease always granted",
+        "two partitions (three + two completed segments, listed by partition and offset), one worker; lease claims may be refused per cycle and partition, a renewal may fail",
         "the sink and checkpoint store are fakes that record calls; the placeholder (noop) store is the module's own, wrapped",
-        "the segment a Write/Commit/LFS call belongs to is inferred from the number of LoadOffset calls in the cycle (cross-checked against the Decode key)",
+        "the segment a Write/Commit/LFS call belongs to is the one named by the last Decode key; for LoadOffset it is inferred from the number of LoadOffset calls in the cycle",
+        "sql-processor: the Decoder is the module's real S3 segment decoder (getObject + decodeSegment) over an in-memory object store injected through a verif-tagged export shim; skeleton / iceberg use a fake Decoder",
         "iceberg: LFS mode resolve, one worker, schema validation off; the etcd checkpoint store is an in-memory stand-in with the same contract (-1 when absent)",
     ])
 
@@ -235,7 +263,7 @@ def self_test(ctx, runs, meta):
     """Corrupt recorded fields: layer O must flag a commit past an unwritten record, layer C must reject a changed sink write."""
     i = next(i for i, (p, s) in enumerate(meta) if s["store"] == "etcd" and not s["faults"] and not PROCS[p]["lfs"])
     bad = copy.deepcopy(runs[i])
-    w = next(r for r in bad if r["ev"] == "Write" and r["ok"] and 0 in r["offs"])
+    w = next(r for r in bad if r["ev"] == "Write" and r["ok"] and r["p"] == 0 and 0 in r["offs"])
     w["offs"] = [o for o in w["offs"] if o != 0]
     _, viol, _ = layers.observe(ctx, DIR, "Obs_Processor.tla", "Obs_Processor.cfg", bad, name="selfO")
     if not any(v[1] == "C33_CheckpointSafe" for v in viol) or not any(v[1] == "C33_CleanCycleDelivers" for v in viol):
